@@ -827,7 +827,10 @@ pub fn check_main(args: &[String]) -> i32 {
         // depends on the environment (the real binary runs in yet another environment)
         let explained = prop == "C19" && viols.iter().any(|v| v.class.contains("env_dependent") || v.class.contains("history_dependent"));
         for m in sw.mismatches.iter().take(5) {
-            if explained {
+            if prop != "C19" && m.contains("a C19 matter, not a simulator bug") {
+                // the simulation agrees with the real binary under whole delivery for this very case
+                println!("note: {}", m);
+            } else if explained {
                 println!("note: simulated console and real binary disagree ({}): explained by the environment dependence reported below", m);
             } else {
                 harness_errors.push(format!("simulated console and real binary disagree: {}", m));
@@ -1002,11 +1005,28 @@ pub fn check_main(args: &[String]) -> i32 {
                             }
                         }
                         Some(Err(e)) => {
-                            confirm = format!("the real binary does NOT behave as simulated: {}", e);
-                            if let Some(x) = mcase.expect.as_mut() {
-                                x.real_binary_agrees = Some(false);
+                            // does the difference go away when the simulated descriptors deliver and
+                            // accept everything at once, as the pipes of the real run do? Then the
+                            // simulation is faithful for this very case and the violation needs a
+                            // delivery pattern (chunks, interrupted or short reads and writes, a small
+                            // buffer) that pipes cannot express: it stands, it just cannot be shown
+                            // with the real binary
+                            let mut plain = mcase.scn.clone();
+                            plain.stdin.plan.clear();
+                            plain.stdout.plan.clear();
+                            plain.stdin.bufreader_cap = 8192;
+                            plain.stdout.linewriter_cap = 1024;
+                            let h2 = crate::world::run_cli(&plain);
+                            if plain != mcase.scn && matches!(crate::fidelity::compare(&h2, &r), Some(Ok(()))) {
+                                confirm = "under whole delivery the real binary (guard off, file + pipe) behaves exactly as simulated; the violation needs chunked / interrupted / short delivery, which pipes cannot express".to_owned();
+                                solid_violations += 1;
+                            } else {
+                                confirm = format!("the real binary does NOT behave as simulated: {}", e);
+                                if let Some(x) = mcase.expect.as_mut() {
+                                    x.real_binary_agrees = Some(false);
+                                }
+                                harness_errors.push(format!("violation {} is not confirmed by the real binary: {}", m.class, e));
                             }
-                            harness_errors.push(format!("violation {} is not confirmed by the real binary: {}", m.class, e));
                         }
                         None => {}
                     }
